@@ -5,7 +5,9 @@ from ..mir import cname, strip, callee_name, show
 EXPLANATION = ('Decides from MIR: (R13.1) who-may-call: a vertex enters a tree only from the extend step, on the true edge of is_free for that same '
                'configuration, or as one of the two roots (start, goal); (R13.2) the is_free callback built by the planner is the negation of '
                'KinematicsWithShape::collides of the same robot on the converted vector and the sampler is constraints().random_angles(); '
-               '(R13.3) root literals, path assembly reverse(ancestors(a)) ++ ancestors(b), reversal iff the second tree is the start tree; '
+               '(R13.3) root literals, path assembly reverse(ancestors(a)) ++ ancestors(b), reversal iff the second tree is the start tree (when not '
+               'written that way: the search interpreted over four scripted connections must return start-root .. goal-root); the ancestor walk '
+               'interpreted on a five-vertex tree yields parent first and the root last, included; '
                '(R13.4) every iteration checks the stop flag before sampling and the raised flag reaches only `return Err`; '
                '(R13.5) conversion keeps every element in order; (R13.6) the predicate gating add_vertex is handed down the call chain unchanged (a wrapper `q == target || pred(q)` is accepted only where every target is already a tree vertex).  Step-length bounds and convexity of limits are numerical and not decided.')
 NOT_DECIDED = 'step-length bound between consecutive nodes; in-limit interpolation (numerical consequences of the extend formula)'
@@ -110,7 +112,14 @@ def run(ctx):
     app = calls.get('Vec::append', [])
     eqs = calls.get('PartialEq::eq', []) + calls.get('str::eq', [])
     shape = len(gur) == 2 and len(rev) == 2 and len(app) == 1
-    if ctx.check(shape, 'R13.3', 'assembly-shape', dual.where(0), dual.path,
+    by_run = None
+    if not shape:
+        by_run = _assembly_by_interpretation(ctx, prog, dual)
+    if by_run is not None:
+        ctx.check(by_run[0], 'R13.3', 'assembly-order', dual.where(0), dual.path,
+                  'the path must run from the start root through the two connected nodes to the goal root, whichever tree was extended: ' + by_run[1],
+                  found=by_run[1], detail=by_run[1])
+    elif ctx.check(shape, 'R13.3', 'assembly-shape', dual.where(0), dual.path,
                  'expected two ancestor walks, an unconditional and a conditional reverse and one append',
                  found='get_until_root x%d, reverse x%d, append x%d' % (len(gur), len(rev), len(app))):
         ta = _tree_literal(dual, gur[0][1]['args'][0], gur[0][0])
@@ -148,6 +157,7 @@ def run(ctx):
         rvs = dual.return_values()
         ok_ret = any(isinstance(strip(t), tuple) and strip(t)[0] == 'agg' and 'Ok' in strip(t)[1] for t, d, rb in rvs)
         ctx.check(ok_ret, 'R13.3', 'returns-path', dual.where(0), dual.path, 'no Ok(path) return found')
+    _ancestor_walk(ctx, prog)
     swaps = calls.get('mem::swap', [])
     ctx.check(len(swaps) == 1, 'R13.3', 'swap', dual.where(swaps[0][0]) if swaps else dual.where(0), dual.path, 'trees must be swapped exactly once per iteration', found=len(swaps))
 
@@ -527,3 +537,172 @@ def _param_of(t):
     while isinstance(t, tuple) and t[0] == 'cast':
         t = strip(t[1])
     return util.param_index(t)
+
+
+def _assembly_by_interpretation(ctx, prog, dual):
+    """R13.3 when the assembly is not written as two walks, a reverse, an append and a conditional reverse: the tree search is
+    interpreted with its trees scripted - `extend` / `connect` answer by script, the ancestor walk of the tree named "start"
+    yields [s2, s1, s-root], that of the other tree [g2, g1, g-root] - for a connection in the first iteration (the start tree
+    is extended) and for one in the second (after one swap, the goal tree is extended).  Either way the path returned must be
+    s-root, s1, s2, g2, g1, g-root.  Returns (ok, message) or None when the search cannot be interpreted."""
+    from .. import absint
+    from ..absint import Interp, Sym
+    tree_adt = [a for a in prog.adts if a.endswith('rrt_to::Tree')]
+    st_adt = [a for a in prog.adts if a.endswith('rrt_to::ExtendStatus')]
+    if len(tree_adt) != 1 or len(st_adt) != 1:
+        return None
+    variants = [v['name'] for v in prog.adts[st_adt[0]]['variants']]
+    if sorted(variants) != ['Advanced', 'Reached', 'Trapped']:
+        return None
+    fields = [f['name'] for f in prog.adts[tree_adt[0]]['variants'][0]['fields']]
+
+    def status(name, payload=None):
+        return ('enum', variants.index(name), () if payload is None else (payload,))
+    roles = {}
+    for bi, t in dual.calls():
+        n = cname(callee_name(t))
+        for role in ('new', 'add_vertex', 'extend', 'connect', 'ancestors'):
+            if role == 'ancestors' and _is(t, 'ancestors'):
+                roles[n] = role
+        if n.startswith('Tree::'):
+            roles.setdefault(n, n.split('::')[-1])
+    results = []
+    for first in ('Advanced', 'Reached', 'Trapped-then-Advanced', 'Advanced-unconnected-then-Reached'):
+        script = {'extend': [], 'connect': []}
+        if first in ('Advanced', 'Reached'):
+            script['extend'] = [status(first, 5)]
+            script['connect'] = [status('Reached', 7)]
+        elif first == 'Trapped-then-Advanced':
+            script['extend'] = [status('Trapped'), status('Advanced', 5)]
+            script['connect'] = [status('Reached', 7)]
+        else:
+            script['extend'] = [status('Advanced', 4), status('Reached', 5)]
+            script['connect'] = [status('Advanced', 6), status('Reached', 7)]
+        log = []
+
+        def val(I, st, a):
+            while isinstance(a, tuple) and a and a[0] in ('ref', 'refval', 'mref'):
+                a = I.deref(a, st)
+            return a
+
+        def h_new(I, st, a, t, b):
+            d = {'#adt': tree_adt[0]}
+            for f in fields:
+                d[f] = Sym(('tree-field', f))
+            nm = [x for x in (val(I, st, y) for y in a) if isinstance(x, str)]
+            if len(nm) != 1:
+                raise absint.Unsupported('Tree::new without a literal name')
+            d['name'] = nm[0]
+            d['vertices'] = Sym(('vertices', nm[0]))
+            return d
+
+        def h_add(I, st, a, t, b):
+            tr = val(I, st, a[0])
+            log.append(('root', tr.get('name') if isinstance(tr, dict) else None, val(I, st, a[1])))
+            return 0
+
+        def h_step(kind):
+            def h(I, st, a, t, b):
+                tr = val(I, st, a[0])
+                log.append((kind, tr.get('name') if isinstance(tr, dict) else None, val(I, st, a[1])))
+                if not script[kind]:
+                    raise absint.Undecided('script exhausted')
+                return script[kind].pop(0)
+            return h
+
+        def h_anc(I, st, a, t, b):
+            tr = val(I, st, a[0])
+            nm = tr.get('name') if isinstance(tr, dict) else None
+            log.append(('ancestors', nm, val(I, st, a[1])))
+            p = 's' if nm == 'start' else 'g'
+            return (Sym(p + '2'), Sym(p + '1'), Sym(p + '-root'))
+
+        def h_load(I, st, a, t, b):
+            return False
+
+        def h_call(I, st, a, t, b):
+            f = val(I, st, a[0])
+            if isinstance(f, Sym) and f.tag == 'sampler':
+                return Sym('q_rand')
+            return absint.BUILTINS['Fn::call'](I, st, a, t, b)
+        def h_log_level(I, st, a, t, b):
+            # `debug!(..)`: whether the level is enabled - the logging is left out of the interpretation
+            if any(isinstance(val(I, st, x), Sym) and 'tracing' in repr(val(I, st, x)) or 'log::' in repr(val(I, st, x)) for x in a):
+                return False
+            raise absint.Unsupported('comparison of %r' % (a,))
+        H = {'Atomic::load': h_load, 'AtomicBool::load': h_load, 'Fn::call': h_call, 'PartialOrd::le': h_log_level, 'PartialOrd::ge': h_log_level,
+             'PartialOrd::lt': h_log_level, 'PartialOrd::gt': h_log_level}
+        for n, role in roles.items():
+            H[n] = {'new': h_new, 'add_vertex': h_add, 'extend': h_step('extend'), 'connect': h_step('connect'), 'ancestors': h_anc,
+                    'get_until_root': h_anc}.get(role, None) or H.get(n)
+        H = {k: v for k, v in H.items() if v is not None}
+        I = Interp(prog, H, fuel=200000, max_paths=8)
+        I.symbolic, I.oracle = True, (lambda o, x, y: None)
+        args = [('refval', (Sym('start0'), Sym('start1')), ()), ('refval', (Sym('goal0'), Sym('goal1')), ()), Sym('is_free'), Sym('sampler'), Sym('step'), 4, ('refval', Sym('stop'), ())]
+        try:
+            outs = I.run(dual.path, args[:dual.arg_count])
+        except (absint.Unsupported, absint.Undecided) as e:
+            return None if not results else (False, 'scenario %s could not be interpreted: %s' % (first, e))
+        if len(outs) != 1:
+            return None
+        results.append((first, outs[0].ret, log))
+    want = tuple(Sym(x) for x in ('s-root', 's1', 's2', 'g2', 'g1', 'g-root'))
+    for first, ret, log in results:
+        if not (isinstance(ret, tuple) and ret and ret[0] == 'enum' and ret[1] == 0 and len(ret[2]) == 1 and tuple(ret[2][0]) == want):
+            shown = [repr(x) for x in ret[2][0]] if isinstance(ret, tuple) and ret and ret[0] == 'enum' and ret[2] and isinstance(ret[2][0], (tuple, list)) else repr(ret)
+            return False, 'connection %s: the search returns %s, expected the nodes from the start root to the goal root' % (first, shown)
+        # the roots: the tree named "start" is rooted at the start argument
+        roots = {nm: q for k, nm, q in log if k == 'root'}
+        if roots.get('start') != (Sym('start0'), Sym('start1')) or roots.get('goal') != (Sym('goal0'), Sym('goal1')):
+            return False, 'the tree named "start" must be rooted at the start argument and the tree named "goal" at the goal argument: %r' % roots
+        # the ancestors are taken from the node that was added / reached, in the tree that was extended / connected
+        ext = [x for x in log if x[0] == 'extend']
+        con = [x for x in log if x[0] == 'connect']
+        anc = [x for x in log if x[0] == 'ancestors']
+        if len(anc) != 2 or {anc[0][1], anc[1][1]} != {'start', 'goal'}:
+            return False, 'connection %s: the ancestors must be collected once in either tree: %r' % (first, [(x[1], x[2]) for x in anc])
+        by_tree = {x[1]: x[2] for x in anc}
+        if by_tree.get(ext[-1][1]) != 5 or by_tree.get(con[-1][1]) != 7 or ext[-1][1] == con[-1][1]:
+            return False, 'connection %s: the walks must start at the node added by extend (5) in the extended tree and at the node reached by connect (7) in the other: %r' % (first, by_tree)
+    return True, 'by interpretation over %d scripted connections' % len(results)
+
+
+def _ancestor_walk(ctx, prog):
+    """R13.3: the ancestors of a vertex are its parent, the parent's parent .. up to and including the root, nearest first -
+    decided by interpreting the tree method on a five-vertex tree (a chain 3 -> 2 -> 1 -> 0 and a branch 4 -> 1)."""
+    from .. import absint
+    from ..absint import Interp, Sym, SOME, NONE
+    path = ROLES.get('ancestors')
+    ab = prog.bodies.get(path) if path else None
+    tree_adt = [a for a in prog.adts if a.endswith('rrt_to::Tree')]
+    node_adt = [a for a in prog.adts if a.endswith('rrt_to::Node')]
+    if ab is None or len(tree_adt) != 1 or len(node_adt) != 1:
+        return
+    ctx.fn(ab)
+    nf = [f['name'] for f in prog.adts[node_adt[0]]['variants'][0]['fields']]
+    tf = [f['name'] for f in prog.adts[tree_adt[0]]['variants'][0]['fields']]
+    pf = [f for f in nf if 'parent' in f]
+    df = [f for f in nf if f not in pf]
+    vf = [f for f in tf if 'vert' in f or 'node' in f]
+    if len(pf) != 1 or len(df) != 1 or len(vf) != 1:
+        return
+    parents = [None, 0, 1, 2, 1]
+    nodes = tuple({'#adt': node_adt[0], pf[0]: (NONE if p is None else SOME(p)), df[0]: Sym('d%d' % k)} for k, p in enumerate(parents))
+    tree = {'#adt': tree_adt[0]}
+    for f in tf:
+        tree[f] = Sym(('tree-field', f))
+    tree[vf[0]] = nodes
+    for start, want in ((3, ('d2', 'd1', 'd0')), (4, ('d1', 'd0')), (1, ('d0',)), (0, ())):
+        I = Interp(prog, {}, fuel=50000, max_paths=8)
+        I.symbolic, I.oracle = True, (lambda o, x, y: None)
+        try:
+            outs = I.run(ab.path, [('refval', tree, ()), start])
+        except (absint.Unsupported, absint.Undecided):
+            return
+        if len(outs) != 1:
+            return
+        got = outs[0].ret
+        ok = isinstance(got, (tuple, list)) and tuple(got) == tuple(Sym(x) for x in want)
+        ctx.check(ok, 'R13.3', 'ancestors-of-%d' % start, ab.where(0), ab.path,
+                  'the ancestors of vertex %d in the tree 3->2->1->0, 4->1 must be %s (parent first, the root last and included), found %s' % (start, list(want), [repr(x) for x in got] if isinstance(got, (tuple, list)) else repr(got)),
+                  found=repr(got)[:200], expected=str(list(want)), detail='by interpretation')
